@@ -215,6 +215,19 @@ func BaseHit(flags []uint8, flag uint8) bool {
 	return false
 }
 
+// BaseSites lists the sites executed since ResetBase (probe step).
+//
+//go:norace
+func BaseSites() []uint32 {
+	var out []uint32
+	for i := range st.siteBase {
+		if st.siteBase[i] != 0 {
+			out = append(out, uint32(i))
+		}
+	}
+	return out
+}
+
 // SetCounting switches baseline yield counting on or off (simulation inactive).
 //
 //go:norace
